@@ -40,8 +40,8 @@ def run(c):
     r = c.validate("TRCPayloadTrace", "TRCPayloadTrace.cfg", trace, timeout=1500)
     _pki.judge_table(c, r, trace)
     if not c.replay:
-        _pki.need(r, "accepted", "payload accepted by TRC.Validate")
-        _pki.need(r, "roundtrips", "encode/decode round trip")
+        _pki.need(c, r, "accepted", "payload accepted by TRC.Validate")
+        _pki.need(c, r, "roundtrips", "encode/decode round trip")
     _pki.drift(c, r)
     n, distinct = vlib.count_distinct(
         trace, lambda e: None if e.get("ev") != "case" else
